@@ -395,6 +395,14 @@ static void do_call(int opidx, const char *kind, slot_t *s, int api, int_t nproc
         if (s->work) { free(s->work); s->work = NULL; }
         s->lwork = lwork;
         if (lwork > 0) s->work = malloc((size_t) lwork);
+        if (lwork > 0 && s->work) {
+            /* work[] is pure workspace: its contents on entry are not an argument of the call.  It is handed over full of small
+             * integers (-1..n+1, the range of column numbers and of the markers the factorization keeps in its integer work arrays),
+             * different for every call of a history, so that a routine that READS a part of it before writing it shows up as a
+             * dependence on the calls made before */
+            int_t *w = (int_t *) s->work; size_t k, m = (size_t) lwork / sizeof(int_t);
+            for (k = 0; k < m; ++k) w[k] = (int_t) ((((unsigned) k * 2654435761u + (unsigned) opidx * 40503u + 977u) >> 9) % (unsigned) (n + 3)) - 1;
+        }
         get_perm_c(permc_spec, &s->A, s->perm_c);
         s->permc_ready = 1;
         if (api != 2) {
